@@ -31,7 +31,7 @@ class Prop(BaseProp):
             "N(N-1)/2 bivariate profiles returned by the same API, the Sync profile with per-event sums, scalars with "
             "mean / pooled ratio, matrices entry-wise (symmetry, diagonal); everything is recomputed on random "
             "permutations of the list. distinct = interleaving words incl. keyword regime")
-    budget = {"quick": 420, "thorough": 9000}
+    budget = {"quick": 420, "thorough": 27000}
     must_see = ["N>=5", "repeated_train", "empty_train_in_list", "permutation_checked", "matrix_checked",
                 "tail:op1_tail_longer", "tail:op2_tail_longer", "tail:end_together", "sync_profile_checked",
                 "RI_true", "max_tau_positive", "mrts_positive", "indices_selection", "indices_non_prefix"]
